@@ -394,6 +394,36 @@ class Translator:
                 raise Unsupported('fstring part')
         return self.cat_all(parts)
 
+    def ev_str_format(self, m, template, node, env):
+        """'lit {} lit {1:#x}'.format(a, b): the same pieces an f-string with these fields gives (format(x, '') of a
+        str / int is what the f-string does); auto-numbered or explicitly numbered positional fields, specs '', d, s, #x."""
+        import string
+        args, kwargs = self.call_args(m, node, env)
+        parts, auto = [], 0
+        for lit, field, spec, conv in string.Formatter().parse(template):
+            if lit:
+                parts.append(E('strLit', lit))
+            if field is None:
+                continue
+            if conv is not None:
+                raise Unsupported('format conversion')
+            if field == '':
+                idx, auto = auto, auto + 1
+                v = args[idx] if idx < len(args) else None
+            elif field.isdigit():
+                v = args[int(field)] if int(field) < len(args) else None
+            else:
+                v = kwargs.get(field)
+            if v is None:
+                raise Unsupported('format field ' + field)
+            if spec == '#x' and is_expr(v):
+                parts.append(E('hexOf', v))
+                continue
+            if spec not in ('', 'd', 's'):
+                raise Unsupported('format spec')
+            parts.append(self.to_str(v))
+        return self.cat_all(parts)
+
     def cat_all(self, parts):
         merged = []
         for p in parts:
@@ -463,6 +493,8 @@ class Translator:
                 return self.ev_join(m, f.value.value, node.args[0], env)
             if f.attr == 'lower' and not node.args:
                 return E('lower', self.to_str(self.ev(m, f.value, env)))
+            if f.attr == 'format' and isinstance(f.value, ast.Constant) and isinstance(f.value.value, str):
+                return self.ev_str_format(m, f.value.value, node, env)
             if f.attr == 'get':
                 recv = self.ev(m, f.value, env)
                 args, kwargs = self.call_args(m, node, env)
